@@ -281,6 +281,15 @@ pub fn body(case: &Case, out: &Shared) {
                     let keys = plan.keys.clone();
                     let r = call("seek-program", || -> Option<String> {
                         let mut it = d.new_iterator(raindb::ReadOptions { fill_cache: fill_cache(), snapshot: None }).ok()?;
+                        // first a full forward walk with this very iterator: if the fault hits one of
+                        // its steps, the seeks below re-use an iterator that has reported an error
+                        if it.seek_to_first().is_ok() {
+                            let mut guard = 0;
+                            while it.is_valid() && guard < 10_000 {
+                                it.next();
+                                guard += 1;
+                            }
+                        }
                         for k in keys.iter().take(12) {
                             for t in [k.clone(), { let mut a = k.clone(); a.push(0); a }] {
                                 // the same iterator is used again after it reported an error: a new
